@@ -19,7 +19,7 @@ RULE = ('In-domain ground-lattice structures (<=2 wires quick, <=3 thorough; gen
 ASSUMPTIONS = ['reflection point of a pulse at height z towards (theta, phi) is z*tan(theta) along phi (specular reflection), measured as x (linear) or radius (circular)']
 
 ZEN = (0., 8.9, 11)      # 0 .. 89 degrees zenith: elevation >= 1 degree
-AZI = (0., 45., 8)
+AZI = (10., 47., 8)      # deliberately not symmetric under phi -> -phi or phi -> phi + 180
 
 
 def bounds(tier, seed):
@@ -208,10 +208,12 @@ def evaluate(c):
                     canon.append('%s|v%d|height|%s|%g' % (und, vi, b, H))
                     nontriv.append(True)
             for eps, sig, h in ((3., 1e-4, -2.), (80., 4., 0.), (1., 1e12, -10.)):
-                _, g4 = pattern(cs, dict(media=[[13., 5e-3, 0., hi + 0.5], [eps, sig, h]], boundary=b))
+                # the boundary is placed tightly beyond the farthest reflection point of this very direction grid
+                xfar = hi * (1 + 1e-9) + 1e-9 if (eps, sig) != (80., 4.) else hi + 0.5
+                _, g4 = pattern(cs, dict(media=[[13., 5e-3, 0., xfar], [eps, sig, h]], boundary=b))
                 ev += 1
                 chk('FAR-BOUNDARY-' + b, float(np.abs(g4 - g1)[g1 > -200].max()), 1e-9,
-                    'a medium (%g, %g, height %g) beyond every reflection point (%s boundary at %.3g, reflections up to %.3g) changes the pattern' % (eps, sig, h, b, hi + 0.5, hi))
+                    'a medium (%g, %g, height %g) beyond every reflection point (%s boundary at %.9g, reflections up to %.9g) changes the pattern' % (eps, sig, h, b, xfar, hi))
                 canon.append('%s|v%d|far|%s|%g' % (und, vi, b, eps))
                 nontriv.append(True)
     return dict(viol=viol[:8], canon=canon, nontriv=nontriv, trans=ev, traces=len(canon), evals=ev, dev=worst, outcome='gnd=%d' % len(gnd), note=wn)
